@@ -1425,3 +1425,8 @@ def do_replay(ctx, exe, drv, consts, blog):
 
 if __name__ == "__main__":
     print(__doc__)
+
+
+def run(ctx, _inner=run):     # + T5-race (lib/racetie.py): data-race freedom, the assumption under every interleaving model; also re-runs its replay files
+    from lib import racetie
+    return racetie.stage(ctx, _inner, ["client"])
